@@ -506,6 +506,8 @@ def main(pid, argv=None):
         somersault_decode(ck)
         unmodelled_composites_decode(ck)
         snoop_sequences(ck)
+    if pid == "C03" and (not ck.replay or doc_level):
+        real_valued_reencode(ck)
     if pid == "C17" and (not ck.replay or doc_level):
         cli_mode_restore(ck)
     if pid == "C08" and (not ck.replay or doc_level):
@@ -823,6 +825,83 @@ UNMODELLED_DOC = ('<?xml version="1.0" encoding="UTF-8"?><ODX MODEL-VERSION="2.2
  '<PARAM xsi:type="VALUE"><SHORT-NAME>c</SHORT-NAME><BYTE-POSITION>3</BYTE-POSITION><DOP-REF ID-REF="strucs2"/></PARAM>'
  '<PARAM xsi:type="VALUE"><SHORT-NAME>d</SHORT-NAME><BYTE-POSITION>5</BYTE-POSITION><DOP-REF ID-REF="str1252e"/></PARAM></PARAMS></REQUEST>'
  '</REQUESTS></BASE-VARIANT></BASE-VARIANTS></DIAG-LAYER-CONTAINER></ODX>')
+
+
+def _real_dop(name, bits, compu, phys='<PHYSICAL-TYPE BASE-DATA-TYPE="A_FLOAT64"/>'):
+    return (f'<DATA-OBJECT-PROP ID="{name}"><SHORT-NAME>{name}</SHORT-NAME>{compu}'
+            f'<DIAG-CODED-TYPE BASE-DATA-TYPE="A_UINT32" xsi:type="STANDARD-LENGTH-TYPE"><BIT-LENGTH>{bits}</BIT-LENGTH></DIAG-CODED-TYPE>'
+            f'{phys}</DATA-OBJECT-PROP>')
+
+
+def _lin(off, num, lo=None, hi=None):
+    lim = ("" if lo is None else f"<LOWER-LIMIT>{lo}</LOWER-LIMIT>") + ("" if hi is None else f"<UPPER-LIMIT>{hi}</UPPER-LIMIT>")
+    return (f"<COMPU-SCALE>{lim}<COMPU-RATIONAL-COEFFS><COMPU-NUMERATOR><V>{off}</V><V>{num}</V></COMPU-NUMERATOR>"
+            "<COMPU-DENOMINATOR><V>1</V></COMPU-DENOMINATOR></COMPU-RATIONAL-COEFFS></COMPU-SCALE>")
+
+
+def _tab(pts):
+    return ("<COMPU-METHOD><CATEGORY>TAB-INTP</CATEGORY><COMPU-INTERNAL-TO-PHYS><COMPU-SCALES>" + "".join(
+        f'<COMPU-SCALE><LOWER-LIMIT INTERVAL-TYPE="CLOSED">{x}</LOWER-LIMIT><COMPU-CONST><V>{y}</V></COMPU-CONST></COMPU-SCALE>'
+        for x, y in pts) + "</COMPU-SCALES></COMPU-INTERNAL-TO-PHYS></COMPU-METHOD>")
+
+
+REAL_DOPS = [
+    # (name, bits, compu method): injective conversions into a real-valued physical type
+    ("lin_fine", 16, "<COMPU-METHOD><CATEGORY>LINEAR</CATEGORY><COMPU-INTERNAL-TO-PHYS><COMPU-SCALES>" + _lin(-40, 0.005) +
+     "</COMPU-SCALES></COMPU-INTERNAL-TO-PHYS></COMPU-METHOD>", '<PHYSICAL-TYPE BASE-DATA-TYPE="A_FLOAT64"><PRECISION>2</PRECISION></PHYSICAL-TYPE>'),
+    ("lin_neg", 8, "<COMPU-METHOD><CATEGORY>LINEAR</CATEGORY><COMPU-INTERNAL-TO-PHYS><COMPU-SCALES>" + _lin(12.5, -0.25) +
+     "</COMPU-SCALES></COMPU-INTERNAL-TO-PHYS></COMPU-METHOD>", '<PHYSICAL-TYPE BASE-DATA-TYPE="A_FLOAT32"><PRECISION>1</PRECISION></PHYSICAL-TYPE>'),
+    ("tab_dec", 8, _tab([(0, 100), (100, 50), (200, 25), (255, -30)]), None),
+    ("tab_inc", 8, _tab([(0, -5), (10, 0), (200, 95), (255, 1000)]), None),
+    ("tab_dec_prec", 8, _tab([(0, 10), (255, 0)]), '<PHYSICAL-TYPE BASE-DATA-TYPE="A_FLOAT64"><PRECISION>1</PRECISION></PHYSICAL-TYPE>'),
+    ("scale_lin", 8, "<COMPU-METHOD><CATEGORY>SCALE-LINEAR</CATEGORY><COMPU-INTERNAL-TO-PHYS><COMPU-SCALES>" + _lin(0, 0.5, 0, 100) +
+     _lin(25, 0.25, 100, 255) + "</COMPU-SCALES></COMPU-INTERNAL-TO-PHYS></COMPU-METHOD>", None),
+]
+
+
+def real_valued_reencode(ck):
+    """C03 (oracle only; the codec model has integer physical types): decode and re-encode every PDU of requests whose
+    parameter converts injectively into a real-valued physical type (LINEAR with a resolution finer than the display
+    PRECISION, negative slope, TAB-INTP increasing and decreasing, SCALE-LINEAR)"""
+    import hier_common as hc
+    dops = "".join(_real_dop(n, b, c, *( [p] if p else [])) for n, b, c, p in REAL_DOPS)
+    reqs = "".join(
+        f'<REQUEST ID="rq_{n}"><SHORT-NAME>rq_{n}</SHORT-NAME><PARAMS><PARAM xsi:type="CODED-CONST"><SHORT-NAME>sid</SHORT-NAME>'
+        f'<BYTE-POSITION>0</BYTE-POSITION><CODED-VALUE>{0x40 + i}</CODED-VALUE><DIAG-CODED-TYPE BASE-DATA-TYPE="A_UINT32" '
+        'xsi:type="STANDARD-LENGTH-TYPE"><BIT-LENGTH>8</BIT-LENGTH></DIAG-CODED-TYPE></PARAM>'
+        f'<PARAM xsi:type="VALUE"><SHORT-NAME>v</SHORT-NAME><BYTE-POSITION>1</BYTE-POSITION><DOP-REF ID-REF="{n}"/></PARAM></PARAMS></REQUEST>'
+        for i, (n, b, c, p) in enumerate(REAL_DOPS))
+    doc = ('<?xml version="1.0" encoding="UTF-8"?><ODX MODEL-VERSION="2.2.0" xmlns:xsi="http://www.w3.org/2001/XMLSchema-instance">'
+           '<DIAG-LAYER-CONTAINER ID="DLC"><SHORT-NAME>DLC</SHORT-NAME><BASE-VARIANTS><BASE-VARIANT ID="BV"><SHORT-NAME>BV</SHORT-NAME>'
+           f'<DIAG-DATA-DICTIONARY-SPEC><DATA-OBJECT-PROPS>{dops}</DATA-OBJECT-PROPS></DIAG-DATA-DICTIONARY-SPEC>'
+           f'<REQUESTS>{reqs}</REQUESTS></BASE-VARIANT></BASE-VARIANTS></DIAG-LAYER-CONTAINER></ODX>')
+    try:
+        db = hc.load_docs([doc])
+    except Exception as e:  # noqa
+        ck.note_broken(f"cannot load the document of real-valued data objects: {type(e).__name__}: {e}")
+        return
+    raw = db.diag_layers[0].diag_layer_raw
+    n = 0
+    for i, (name, bits, _c, _p) in enumerate(REAL_DOPS):
+        rq = [r for r in raw.requests if r.short_name == f"rq_{name}"][0]
+        if bits == 8 or ck.tier != "quick":
+            xs = range(1 << bits)
+        else:
+            xs = sorted(set(range(0, 1 << bits, 37)) | set(range(64)) | {(1 << bits) - 1, (1 << bits) - 2})
+        for x in xs:
+            pdu = bytes([0x40 + i]) + x.to_bytes(bits // 8, "big")
+            n += 1
+            ck.count(("real", name, x))
+            d, e, _ = cc.guarded(lambda: rq.decode(pdu), timeout=3)
+            if e is not None:
+                continue  # not a PDU the description decodes
+            r, e2, _ = cc.guarded(lambda: bytes(rq.encode(**{k: v for k, v in d.items() if k != "sid"})), timeout=3)
+            if e2 is not None or r != pdu:
+                ck.violation(f"request rq_{name} ({name}: real-valued physical type): PDU {pdu.hex()} decodes to {d!r} "
+                             f"which re-encodes to {r.hex() if e2 is None else repr(e2)}",
+                             {"document": "harness/codec_checks.py REAL_DOPS", "request": f"rq_{name}", "msg": pdu.hex()})
+                break
+    ck.coverage["real_valued_pdus"] = n
 
 
 def code_pages_decode(ck, raw):
